@@ -43,6 +43,7 @@ var targets = []string{
 	"SessionData.SetAccessToken", "SessionData.GetAccessToken", "SessionData.SetRefreshToken", "SessionData.GetRefreshToken",
 	"SessionData.GetCSRF", "SessionData.SetCSRF", "SessionData.GetNonce", "SessionData.SetNonce", "SessionData.GetCodeVerifier", "SessionData.SetCodeVerifier",
 	"SessionData.GetEmail", "SessionData.SetEmail", "SessionData.GetIncomingPath", "SessionData.SetIncomingPath",
+	"SessionData.GetAuthenticated", "SessionData.SetAuthenticated",
 }
 
 // functions whose effects are on the outside world and the clock (discovery): `time.Now()`, `time.Sleep` and the HTTP fetch are
@@ -52,7 +53,7 @@ var clocked = map[string]bool{"discoverProviderMetadata": true, "MetadataCache.G
 // methods of *MetadataCache that assign its fields: they take the struct and return the new one next to their result
 var recvMutMethods = map[string]bool{"MetadataCache.GetMetadata": true, "MetadataCache.Cleanup": true,
 	"SessionData.expireAccessTokenChunks": true, "SessionData.expireRefreshTokenChunks": true, "SessionData.SetAccessToken": true, "SessionData.SetRefreshToken": true,
-	"SessionData.SetCSRF": true, "SessionData.SetNonce": true, "SessionData.SetCodeVerifier": true, "SessionData.SetEmail": true, "SessionData.SetIncomingPath": true}
+	"SessionData.SetCSRF": true, "SessionData.SetNonce": true, "SessionData.SetCodeVerifier": true, "SessionData.SetEmail": true, "SessionData.SetIncomingPath": true, "SessionData.SetAuthenticated": true}
 
 // calls that read or change the state shared between requests (token cache, revocation list, limiter): the translated function
 // takes that state as its last argument `w` and returns it next to its result; the operations are the fields of `Go.VOps`
@@ -91,6 +92,7 @@ var externals = map[string][]string{
 	"jwkToPEM":            {"pem", "error"},
 	"extractClaims":       {"obj", "error"},
 	"verifySignature":     {"error"},
+	"generateSecureRandomString": {"str", "error"}, // (crypto/rand: a field of the session data, i.e. a parameter)
 }
 
 // externals whose arguments are not passed on (constant per instance)
@@ -101,7 +103,7 @@ var sessGetters = map[string]string{"GetAuthenticated": "bool", "GetAccessToken"
 
 // package-level variables / constants translated (name -> Lean type)
 var globals = map[string]string{"ClockSkewToleranceFuture": "dur", "ClockSkewTolerancePast": "dur", "ClockSkewTolerance": "dur", "defaultBlacklistDuration": "dur",
-	"maxCookieSize": "int", "accessTokenCookie": "str", "refreshTokenCookie": "str"}
+	"maxCookieSize": "int", "accessTokenCookie": "str", "refreshTokenCookie": "str", "absoluteSessionTimeout": "dur"}
 
 type fn struct {
 	key        string
@@ -971,6 +973,8 @@ func (c *ctx) call(x *ast.CallExpr) (string, string) {
 				return "(Go.time" + sel.Sel.Name + " " + r + " " + as[0] + ")", "bool"
 			case "time.UTC":
 				return r, "time"
+			case "time.Unix":
+				return "(Go.timeToUnix " + r + ")", "int"
 			case "dur.Seconds":
 				return "(Go.durSeconds " + r + ")", "f64"
 			case "error.Error":
@@ -1105,6 +1109,8 @@ func anyWrap(v, t string) string {
 		return "(Go.Any.str " + v + ")"
 	case "obj":
 		return "(Go.Any.obj " + v + ")"
+	case "int":
+		return "(Go.Any.int " + v + ")"
 	}
 	fail(nil, "a %s passed as interface{}", t)
 	return ""
@@ -1278,6 +1284,13 @@ func (c *ctx) assign(s *ast.AssignStmt, k func() string) string {
 				}
 				fail(s, "assignment to the values of a session")
 			}
+			if px, pt, ok := c.tryExpr(l.X); ok && pt == "gsessp" && l.Sel.Name == "ID" { // session.ID = id: the cookie store neither writes nor reads a session's ID
+				_ = px
+				if _, vt := c.expr(s.Rhs[0]); vt != "str" {
+					fail(s, "session ID set to a %s", vt)
+				}
+				return c.takePre() + k()
+			}
 			if inner, ok := l.X.(*ast.SelectorExpr); ok && inner.Sel.Name == "Options" && l.Sel.Name == "MaxAge" { // session.Options.MaxAge = -1
 				if px, pt, ok := c.tryExpr(inner.X); ok && pt == "gsessp" {
 					v, vt := c.expr(s.Rhs[0])
@@ -1370,7 +1383,7 @@ func (c *ctx) assign(s *ast.AssignStmt, k func() string) string {
 				fail(r, "type assertion on a %s", t)
 			}
 			at := goType(r.Type)
-			fnm := map[string]string{"str": "Go.asStr", "f64": "Go.asF64", "bool": "Go.asBool", "anys": "Go.asArr", "obj": "Go.asObj"}[at]
+			fnm := map[string]string{"str": "Go.asStr", "f64": "Go.asF64", "bool": "Go.asBool", "anys": "Go.asArr", "obj": "Go.asObj", "int": "Go.asInt"}[at]
 			if fnm == "" {
 				fail(r, "type assertion to %s", src(r.Type))
 			}
